@@ -208,6 +208,7 @@ def run_cue(case):
 
 
 class Check(CheckBase):
+    death_is_violation = True   # a run that takes its process down has not terminated with bounded resources
     id = "C13"
     level = "fault_enumeration"
     title = "`ls` and `export` terminate with bounded resources on any input file"
